@@ -190,7 +190,8 @@ def handle5 (op : String) (a obs : List String) : Option Verdict :=
   | "bind" => do
     let preset := get a 1
     let plan : Option (Config.Family × Config.Addr × Config.V6Only) :=
-      if preset == "local_v4" then Config.bindPlan .localV4
+      if preset == "default" then Config.bindPlan .inAddrAnyDual      -- `with_bind_default`: wildcard, dual stack
+      else if preset == "local_v4" then Config.bindPlan .localV4
       else if preset == "local_v6" then Config.bindPlan .localV6
       else if preset == "local_dual" then Config.bindPlan .localDual
       else if preset == "any_v4" then Config.bindPlan .inAddrAnyV4
